@@ -64,6 +64,7 @@ type Dir struct {
 	Cuts  []int  `json:"cuts,omitempty"`  // cut offsets into the byte stream
 	Empty []int  `json:"empty,omitempty"` // indices of data frames preceded by an empty DATA frame
 	End   string `json:"end"`             // last | separate | absent | trailers
+	Plain bool   `json:"plain,omitempty"` // non-gRPC streams only: the body is the plaintexts without length prefixes
 }
 
 // Case is one bidirectional stream through the adapter.
@@ -259,7 +260,11 @@ func mustJSON(v interface{}) []byte {
 
 func buildUncached(d Dir) *built {
 	b := &built{enc: normEnc(d.Enc), end: normEnd(d.End)}
-	if d.Raw != "" {
+	if d.Plain {
+		for _, m := range d.Msgs {
+			b.stream = append(b.stream, m.plain()...)
+		}
+	} else if d.Raw != "" {
 		if compresses(b.enc) {
 			b.enc = ""
 		}
@@ -509,98 +514,155 @@ func apply(p h2.Processor, o op) error {
 
 var target, _ = url.Parse("https://verif.example/verif.Svc/Call")
 
-func runCase(c Case) kit.Verdict {
-	var v kit.Verdict
-	sinkC, sinkS := &sinkRec{}, &sinkRec{}
-	var recC, recS *procRec
-	factory := mgrpc.AsStreamProcessorFactory(func(_ *url.URL, server, client mgrpc.Processor) (mgrpc.Processor, mgrpc.Processor) {
+// streamRun is one stream being played through the two adapters a factory
+// returned for it.
+type streamRun struct {
+	c            Case
+	sinkC, sinkS *sinkRec
+	recC, recS   *procRec
+	hc, hs       h2.Processor
+	bc, bs       *built
+	opsC, opsS   []op
+	errC, errS   error
+	atC, atS, i  int
+	bad          kit.Verdict
+}
+
+// newFactory builds ONE StreamProcessorFactory (what h2.Config holds for the
+// life of the proxy); every stream it is asked to process is wired to the
+// streamRun that *cur points to at that moment.
+func newFactory(cur **streamRun) h2.StreamProcessorFactory {
+	return mgrpc.AsStreamProcessorFactory(func(_ *url.URL, server, client mgrpc.Processor) (mgrpc.Processor, mgrpc.Processor) {
+		s := *cur
 		var pc, ps mgrpc.Processor
-		if c.Procs != "s" {
-			recC = &procRec{next: server}
-			pc = recC
+		if s.c.Procs != "s" {
+			s.recC = &procRec{next: server}
+			pc = s.recC
 		}
-		if c.Procs != "c" {
-			recS = &procRec{next: client}
-			ps = recS
+		if s.c.Procs != "c" {
+			s.recS = &procRec{next: client}
+			ps = s.recS
 		}
 		return pc, ps
 	})
-	hc, hs := factory(target, h2.VerifNewProcessors(sinkC, sinkS))
-	if (hc == nil) != (recC == nil) || (hs == nil) != (recS == nil) {
-		v.Addf("C11/setup/processor-presence/adapter-missing-or-unexpected", "factory returned cToS=%v sToC=%v for procs=%q", hc != nil, hs != nil, c.Procs)
-		return v
-	}
-	bc, bs := build(c.C), build(c.S)
-	var opsC, opsS []op
-	if hc != nil {
-		opsC = opsFor(c, "c", c.C, bc)
-	}
-	if hs != nil {
-		opsS = opsFor(c, "s", c.S, bs)
-	}
+}
 
-	var errC, errS error
-	var atC, atS int
-	stepC := func() {
-		if errC == nil {
-			if errC = apply(hc, opsC[atC]); errC != nil {
-				errC = fmt.Errorf("op %d %c(%d bytes,end=%v): %w", atC, opsC[atC].kind, len(opsC[atC].data), opsC[atC].end, errC)
-			}
-		}
-		atC++
+func openStream(f h2.StreamProcessorFactory, cur **streamRun, c Case) *streamRun {
+	if isGRPC(c.CT) {
+		c.C.Plain, c.S.Plain = false, false // a gRPC stream is always length-prefixed
 	}
-	stepS := func() {
-		if errS == nil {
-			if errS = apply(hs, opsS[atS]); errS != nil {
-				errS = fmt.Errorf("op %d %c(%d bytes,end=%v): %w", atS, opsS[atS].kind, len(opsS[atS].data), opsS[atS].end, errS)
-			}
-		}
-		atS++
+	s := &streamRun{c: c, sinkC: &sinkRec{}, sinkS: &sinkRec{}}
+	*cur = s
+	s.hc, s.hs = f(target, h2.VerifNewProcessors(s.sinkC, s.sinkS))
+	if (s.hc == nil) != (s.recC == nil) || (s.hs == nil) != (s.recS == nil) {
+		s.bad.Addf("C11/setup/processor-presence/adapter-missing-or-unexpected", "factory returned cToS=%v sToC=%v for procs=%q", s.hc != nil, s.hs != nil, c.Procs)
+		return s
 	}
-	if len(opsC) > 0 {
-		stepC() // the request headers open the stream
+	s.bc, s.bs = build(c.C), build(c.S)
+	if s.hc != nil {
+		s.opsC = opsFor(c, "c", c.C, s.bc)
+	}
+	if s.hs != nil {
+		s.opsS = opsFor(c, "s", c.S, s.bs)
+	}
+	return s
+}
+
+func (s *streamRun) stepC() {
+	if s.errC == nil {
+		o := s.opsC[s.atC]
+		if s.errC = apply(s.hc, o); s.errC != nil {
+			s.errC = fmt.Errorf("op %d %c(%d bytes,end=%v): %w", s.atC, o.kind, len(o.data), o.end, s.errC)
+		}
+	}
+	s.atC++
+}
+
+func (s *streamRun) stepS() {
+	if s.errS == nil {
+		o := s.opsS[s.atS]
+		if s.errS = apply(s.hs, o); s.errS != nil {
+			s.errS = fmt.Errorf("op %d %c(%d bytes,end=%v): %w", s.atS, o.kind, len(o.data), o.end, s.errS)
+		}
+	}
+	s.atS++
+}
+
+func (s *streamRun) done() bool {
+	return s.bad != nil || (s.atC >= len(s.opsC) && s.atS >= len(s.opsS))
+}
+
+// step plays the next frame of the stream: the request headers first, then
+// whichever direction the case's schedule names.
+func (s *streamRun) step() {
+	if s.done() {
+		return
+	}
+	if s.atC == 0 && len(s.opsC) > 0 {
+		s.stepC() // the request headers open the stream
+		return
+	}
+	pickS := s.atC >= len(s.opsC)
+	if !pickS && s.atS < len(s.opsS) && s.i < len(s.c.Sched) {
+		pickS = s.c.Sched[s.i] == 's'
+	}
+	s.i++
+	if pickS {
+		s.stepS()
+	} else {
+		s.stepC()
+	}
+}
+
+func (s *streamRun) verdict() kit.Verdict {
+	if s.bad != nil {
+		return s.bad
+	}
+	var v kit.Verdict
+	if s.hc != nil {
+		v = append(v, judge(s.c, "c", s.bc, s.opsC, s.errC, s.sinkC, s.recC)...)
+	} else if len(s.sinkC.ev) > 0 {
+		v.Addf("C11/isolation/no-processor-direction/sink-received-frames", "client-to-server sink got%s though that direction was never driven", summary(s.sinkC.ev))
+	}
+	if s.hs != nil {
+		v = append(v, judge(s.c, "s", s.bs, s.opsS, s.errS, s.sinkS, s.recS)...)
+	} else if len(s.sinkS.ev) > 0 {
+		v.Addf("C11/isolation/no-processor-direction/sink-received-frames", "server-to-client sink got%s though that direction was never driven", summary(s.sinkS.ev))
+	}
+	return v
+}
+
+func runCase(c Case) kit.Verdict {
+	var cur *streamRun
+	s := openStream(newFactory(&cur), &cur, c)
+	if s.bad != nil {
+		return s.bad
 	}
 	if c.Conc {
+		if len(s.opsC) > 0 {
+			s.stepC() // the request headers open the stream
+		}
 		var wg sync.WaitGroup
 		wg.Add(2)
 		go func() {
 			defer wg.Done()
-			for atC < len(opsC) {
-				stepC()
+			for s.atC < len(s.opsC) {
+				s.stepC()
 			}
 		}()
 		go func() {
 			defer wg.Done()
-			for atS < len(opsS) {
-				stepS()
+			for s.atS < len(s.opsS) {
+				s.stepS()
 			}
 		}()
 		wg.Wait()
 	} else {
-		for i := 0; atC < len(opsC) || atS < len(opsS); i++ {
-			pickS := atC >= len(opsC)
-			if !pickS && atS < len(opsS) && i < len(c.Sched) {
-				pickS = c.Sched[i] == 's'
-			}
-			if pickS {
-				stepS()
-			} else {
-				stepC()
-			}
+		for !s.done() {
+			s.step()
 		}
 	}
-
-	if hc != nil {
-		v = append(v, judge(c, "c", bc, opsC, errC, sinkC, recC)...)
-	} else if len(sinkC.ev) > 0 {
-		v.Addf("C11/isolation/no-processor-direction/sink-received-frames", "client-to-server sink got%s though that direction was never driven", summary(sinkC.ev))
-	}
-	if hs != nil {
-		v = append(v, judge(c, "s", bs, opsS, errS, sinkS, recS)...)
-	} else if len(sinkS.ev) > 0 {
-		v.Addf("C11/isolation/no-processor-direction/sink-received-frames", "server-to-client sink got%s though that direction was never driven", summary(sinkS.ev))
-	}
-	return v
+	return s.verdict()
 }
 
 // ---------------------------------------------------------------- oracle
@@ -1211,4 +1273,4 @@ func TestAllCutSets(t *testing.T) {
 	propCuts.Enumerate(t, enumCases)
 }
 
-func TestReplay(t *testing.T) { kit.Replay(t, propReframe, propCuts) }
+func TestReplay(t *testing.T) { kit.Replay(t, propReframe, propCuts, propStreams, propStreamKinds, propRelay, propRelayEdges) }
